@@ -853,7 +853,13 @@ static hostrange_t hostrange_intersect(hostrange_t h1, hostrange_t h2)
     if (h1->singlehost || h2->singlehost)
         return NULL;
 
-    assert(hostrange_cmp(h1, h2) <= 0);
+    /* hostrange_cmp() orders by width when the widths of the two 'lo'
+     * values are incompatible, so splitting an overlap can leave a pair
+     * out of order (t10 before t01 after t[9-10],t[9-10] was split).
+     * Such a pair has no overlap that could be resolved here.
+     */
+    if (hostrange_cmp(h1, h2) > 0)
+        return NULL;
 
     if ((hostrange_prefix_cmp(h1, h2) == 0)
         && (h1->hi > h2->lo)
